@@ -51,7 +51,7 @@ def run(tier, only=None):
                 'bounds': '%d trees built through the public API: flat map, nested maps / lists, lists with nulls (also trailing), scalars that look like YAML syntax / numbers / booleans / null, keys that need quoting, root scalar, root list, UTF-8 text; '
                           'export to file, import from file and from string; observable equality (type, count, keys in order, get, get_subtree) node by node; leak check including libyaml objects' % len(jobs),
                 'outside': 'everything inside libyaml: the emitted text, quoting, plain-scalar resolution, line folding, anchors - modelled as the identity on documents; arbitrary (symbolic) scalar bytes; properties embedded in calibration files (C07.b covers their document round trip)',
-                'explanation': yamlflow.__doc__, 'level': 'model_check',
+                'explanation': yamlflow.__doc__, 'level': 'exploration', 'evidence': False,
                 'assumptions': ['libyaml emitter-then-parser is the identity on documents (kinds, order, scalar bytes, scalar style)'],
                 'samples': [{'id': r.get('id'), 'queries': r.get('queries'), 'file_bytes': r.get('file_bytes'), 'time_s': r.get('time')} for r in results[:20]]}
         rc, ev = calrun.report('C14', tier, results, viol, meta, t0)
